@@ -84,7 +84,7 @@ def constructive(rng, case, idx):
         solvent_obj = solvent_sub
         portion = {}
         if skind == 'pure':
-            x_solv = 10 ** rng.uniform(-5, 0) / R.per(solvent_sub, 'L')       # canonical (mol)
+            x_solv = 10 ** rng.uniform(-7, 0) / R.per(solvent_sub, 'L')       # canonical (mol): 0.1 uL .. 1 L
             portion = {solvent_sub: R.stored_from_canon(solvent_sub, x_solv)}
         else:
             init = [(solvent_sub, spell(rng, 10 ** rng.uniform(-4, 0), 'L'))]
@@ -116,7 +116,7 @@ def constructive(rng, case, idx):
                 if R.per(s, 'L') > 0:
                     amt = min(amt, vol_solv * rng.uniform(0.01, 0.3) / R.per(s, 'L'))
             else:
-                amt = 10 ** rng.uniform(-7, -1)
+                amt = 10 ** rng.uniform(-11.5, -1)       # picomoles .. 0.1 mol
                 if R.per(s, 'L') > 0:
                     amt = min(amt, vol_solv * rng.uniform(0.01, 0.5) / R.per(s, 'L'))
             st = R.stored_from_canon(s, amt)
